@@ -69,16 +69,16 @@ def gen_case(rng, nsched):
 
 SMALL = [
     # (object, threads, spurious, preemption bound); the first three are also explored in the quick tier
-    ("bq", [["put 1", "put 2"], ["take"], ["take"]], False, 2),
-    ("bbq 1", [["put 1", "put 2"], ["take", "take"]], True, 2),
-    ("latch 1", [["wait"], ["wait", "getCount"], ["countDown"]], True, 2),
+    ("bq", [["put 1", "put 2"], ["take"], ["take"]], False, 3),
+    ("bbq 1", [["put 1", "put 2"], ["take", "take"]], True, 4),
+    ("latch 1", [["wait"], ["wait", "getCount"], ["countDown"]], True, 4),
     ("bq", [["put 1", "put 2", "put 3"], ["take", "drain"], ["take", "size"]], False, 2),
-    ("bq", [["put 1", "take"], ["put 2", "take"], ["take", "put 3"]], True, 2),
-    ("bbq 1", [["put 1"], ["put 2"], ["take"], ["take"]], False, 2),
-    ("bbq 1", [["put 1", "put 2", "put 3"], ["take"], ["take", "take"]], True, 2),
+    ("bq", [["put 1", "take"], ["put 2", "take"], ["take", "put 3"]], True, 4),
+    ("bbq 1", [["put 1"], ["put 2"], ["take"], ["take"]], False, 3),
+    ("bbq 1", [["put 1", "put 2", "put 3"], ["take"], ["take", "take"]], True, 3),
     ("bbq 2", [["put 1", "put 2", "put 3"], ["take", "full"], ["take", "take", "empty"]], False, 2),
     ("bbq 2", [["put 1", "put 2"], ["put 3", "put 4"], ["take", "take"], ["take", "take"]], False, 2),
-    ("latch 2", [["wait", "getCount"], ["wait"], ["countDown"], ["countDown"]], True, 2),
+    ("latch 2", [["wait", "getCount"], ["wait"], ["countDown"], ["countDown"]], True, 3),
     ("latch 1", [["wait"], ["wait"], ["wait"], ["countDown", "countDown"]], False, 3),
 ]
 
